@@ -70,6 +70,7 @@ func (s Stack) Apply(opt *Option, profile string) (string, error) {
 		regCleanStakedRules = slices.Insert(regCleanStakedRules, 0,
 			util.ToRegexRepl([]string{
 				`(?m)^.*\s[rwmlk]*(|P|p|C|c)(|U|u)(|i)x(\s*->\s*[^,]+)?,.*$`, ``, // Remove X transition rules
+				`(?m)^.*` + Keyword + `exec( .*)?$`, ``, // ... and the directive that would generate some
 			})...,
 		)
 	} else {
